@@ -895,6 +895,10 @@ func (h *vfC17amH) finish(rep func(cls, what string)) {
 			s.Subscription.Close()
 		}
 	}
+	if tr := h.am.addrsReachabilityTracker; tr != nil && tr.ctx.Err() == nil {
+		rep("am-tracker-not-closed", "Close returned and the reachability tracker is still running")
+		tr.Close() // so that the bubble can end
+	}
 	h.evSub.Close()
 	h.relayEm.Close()
 	h.reachEm.Close()
